@@ -179,6 +179,12 @@ def scenario(cfg, symbolic: bool, dims: Optional[dict] = None) -> List[str]:
         r = _run(lambda: setattr(c, 'Xx', operand))
         if cfg['strict']:
             must_raise = 'AttributeError'
+    elif op == 'attr_resolvable':
+        # names that are neither variables nor registered attributes but resolve by ordinary lookup: the storage slot of
+        # a variable, a method, a class attribute.  Under strict=True none of them may be (re)bound.
+        r = _run(lambda: setattr(c, cfg['name'], operand))
+        if cfg['strict']:
+            must_raise = 'AttributeError'
     elif op == 'add_attribute':
         r = _run(lambda: c.add_attribute('note', 'text'))
     elif op == 'toggle_strict':
@@ -326,6 +332,9 @@ def configs(tier: str):
                         if od[0] == 'scalar':
                             out.append(cfg9(cls=cls, L=L, kinds=kinds, strict=strict, op='values_scalar', operand=od))
                             out.append(cfg9(cls=cls, L=L, kinds=kinds, strict=strict, op='attr_new', operand=od))
+                            if strict:
+                                for nm in ('_X', 'copy', 'values') + (('NAMES', 'LAGS') if cls == 'model' else ()):
+                                    out.append(cfg9(cls=cls, L=L, kinds=kinds, strict=strict, op='attr_resolvable', operand=od, name=nm))
                             out.append(cfg9(cls=cls, L=L, kinds=kinds, strict=strict, op='add_variable_dup', operand=od))
                             out.append(cfg9(cls=cls, L=L, kinds=kinds, strict=strict, op='item_set_unknown', operand=od))
                     out.append(cfg9(cls=cls, L=L, kinds=kinds, strict=strict, op='add_attribute', operand=None))
